@@ -37,7 +37,7 @@ Section C02.
   Variable c0 : cstate M.
   Hypothesis c0_sorted : sorted str_ltb (c_items c0).
 
-  Notation run := (run m_eqb m_empty w_validate w_merge clock_at str_ltb idfun false prog).
+  Notation run := (run m_eqb m_empty w_validate w_merge clock_at str_ltb idfun false false prog).
   Notation replay := (replay m_eqb m_empty w_validate w_merge clock_at str_ltb idfun prog).
   Notation spec_call := (spec_call m_eqb m_empty w_validate w_merge clock_at str_ltb idfun (rmask := rmask)).
   Notation predicted := (predicted m_eqb m_empty w_merge (rmask := rmask)).
